@@ -15,8 +15,8 @@ Definition shift_item (a : nat) (it : item) : item :=
   | IPrefix d i => IPrefix d (i + a)
   | ISuffix d i => ISuffix d (i + a)
   | IBinary d k => IBinary d (option_map (fun j => j + a) k)
-  | IOpen i => IOpen (i + a)
-  | IClose i => IClose (i + a)
+  | IOpen b i => IOpen b (i + a)
+  | IClose b i => IClose b (i + a)
   end.
 
 Lemma items_of_shift a : forall l i prev sp,
@@ -41,7 +41,7 @@ Proof.
   induction f as [|f IH]; intros q acc its; [reflexivity|].
   destruct acc as [lhs|]; cbn [option_map climb].
   - destruct its as [|it r]; [reflexivity|]. cbn [map].
-    destruct it as [d k|d k|d k|d k|k|k]; cbn [shift_item]; try reflexivity.
+    destruct it as [d k|d k|d k|d k|b k|b k]; cbn [shift_item]; try reflexivity.
     + destruct (inside d q); [|reflexivity].
       change (Some (RSuf d (k + a) (shift_rtree a lhs))) with (option_map (shift_rtree a) (Some (RSuf d k lhs))).
       apply IH.
@@ -52,7 +52,7 @@ Proof.
         with (option_map (shift_rtree a) (Some (RBin d k lhs rhs))).
       apply IH.
   - destruct its as [|it r]; [reflexivity|]. cbn [map].
-    destruct it as [d k|d k|d k|d k|k|k]; cbn [shift_item]; try reflexivity.
+    destruct it as [d k|d k|d k|d k|b k|b k]; cbn [shift_item]; try reflexivity.
     + change (Some (RAtom d (k + a))) with (option_map (shift_rtree a) (Some (RAtom d k))). apply IH.
     + destruct (ref_rank d) as [p|]; [|reflexivity].
       pose proof (IH p None r) as E0. cbn [option_map] in E0. rewrite E0. clear E0.
@@ -61,8 +61,9 @@ Proof.
       apply IH.
     + pose proof (IH INF None r) as E0. cbn [option_map] in E0. rewrite E0. clear E0.
       destruct (climb f INF None r) as [[inner [|c r']]|]; try reflexivity. cbn [option_map shift_res fst snd map].
-      destruct c as [d0 k0|d0 k0|d0 k0|d0 k0|k0|k0]; cbn [shift_item]; try reflexivity.
-      change (Some (RGroup (k + a) (shift_rtree a inner))) with (option_map (shift_rtree a) (Some (RGroup k inner))).
+      destruct c as [d0 k0|d0 k0|d0 k0|d0 k0|b0 k0|b0 k0]; cbn [shift_item]; try reflexivity.
+      destruct (bkind_eqb b b0); [|reflexivity].
+      change (Some (RGroup b (k + a) (shift_rtree a inner))) with (option_map (shift_rtree a) (Some (RGroup b k inner))).
       apply IH.
 Qed.
 
@@ -150,17 +151,17 @@ Proof.
 Qed.
 
 (* ---- a successful climb consumes a well-formed item list ---- *)
-Fixpoint wf_items (its : list item) (after : bool) (depth : nat) : bool :=
+Fixpoint wf_items (its : list item) (after : bool) (depth : list bkind) : bool :=
   match its with
-  | [] => after && Nat.eqb depth 0
+  | [] => after && match depth with [] => true | _ => false end
   | it :: r =>
     match it with
     | IValue _ _ => negb after && wf_items r true depth
     | IPrefix _ _ => negb after && wf_items r false depth
-    | IOpen _ => negb after && wf_items r false (S depth)
+    | IOpen b _ => negb after && wf_items r false (b :: depth)
     | IBinary _ _ => after && wf_items r false depth
     | ISuffix _ _ => after && wf_items r true depth
-    | IClose _ => after && match depth with S d => wf_items r true d | O => false end
+    | IClose b _ => after && match depth with b' :: d => bkind_eqb b' b && wf_items r true d | [] => false end
     end
   end.
 
@@ -173,7 +174,7 @@ Proof.
   induction f as [|f IH]; intros q acc its t rest H D Hr; [discriminate|].
   destruct acc as [lhs|]; cbn [climb is_some] in *.
   - destruct its as [|it r]; [injection H as <- <-; exact Hr|].
-    destruct it as [d k|d k|d k|d k|k|k]; try (injection H as <- <-; exact Hr).
+    destruct it as [d k|d k|d k|d k|b k|b k]; try (injection H as <- <-; exact Hr).
     + destruct (inside d q); [|injection H as <- <-; exact Hr].
       cbn [wf_items andb]. exact (IH _ _ _ _ _ H D Hr).
     + destruct (inside d q); [|injection H as <- <-; exact Hr].
@@ -181,30 +182,31 @@ Proof.
       destruct (climb f p None r) as [[rhs r']|] eqn:E1; [|discriminate].
       cbn [wf_items andb]. apply (IH _ _ _ _ _ E1 D). exact (IH _ _ _ _ _ H D Hr).
   - destruct its as [|it r]; [discriminate|].
-    destruct it as [d k|d k|d k|d k|k|k]; try discriminate.
+    destruct it as [d k|d k|d k|d k|b k|b k]; try discriminate.
     + cbn [wf_items negb andb]. exact (IH _ _ _ _ _ H D Hr).
     + destruct (ref_rank d) as [p|]; [|discriminate].
       destruct (climb f p None r) as [[arg r']|] eqn:E1; [|discriminate].
       cbn [wf_items negb andb]. apply (IH _ _ _ _ _ E1 D). exact (IH _ _ _ _ _ H D Hr).
     + destruct (climb f INF None r) as [[inner [|c r']]|] eqn:E1; try discriminate.
-      destruct c as [d0 k0|d0 k0|d0 k0|d0 k0|k0|k0]; try discriminate.
-      cbn [wf_items negb andb]. apply (IH _ _ _ _ _ E1 (S D)).
-      cbn [wf_items andb]. exact (IH _ _ _ _ _ H D Hr).
+      destruct c as [d0 k0|d0 k0|d0 k0|d0 k0|b0 k0|b0 k0]; try discriminate.
+      destruct (bkind_eqb b b0) eqn:Eb; [|discriminate H].
+      cbn [wf_items negb andb]. apply (IH _ _ _ _ _ E1 (b :: D)).
+      cbn [wf_items andb]. rewrite Eb. cbn [andb]. exact (IH _ _ _ _ _ H D Hr).
 Qed.
 
 (* ---- a well-formed item list comes from a well-formed token list ---- *)
-Fixpoint opexpr_loose (toks : list token_type) (after spaced : bool) (depth : nat) : bool :=
+Fixpoint opexpr_loose (toks : list token_type) (after spaced : bool) (depth : list bkind) : bool :=
   match toks with
-  | [] => after && Nat.eqb depth 0
+  | [] => after && match depth with [] => true | _ => false end
   | t :: r =>
     match ref_kind t with
     | KSpace => opexpr_loose r after true depth
     | KValue => (negb after || spaced) && opexpr_loose r true false depth
     | KPrefix => (negb after || spaced) && opexpr_loose r false false depth
-    | KOpen => (negb after || spaced) && opexpr_loose r false false (S depth)
+    | KOpen b => (negb after || spaced) && opexpr_loose r false false (b :: depth)
     | KBinary => after && opexpr_loose r false false depth
     | KSuffix => after && opexpr_loose r true false depth
-    | KClose => after && match depth with S d => opexpr_loose r true false d | O => false end
+    | KClose b => after && match depth with b' :: d => bkind_eqb b' b && opexpr_loose r true false d | [] => false end
     | KOther => false
     end
   end.
@@ -249,15 +251,16 @@ Proof.
       rewrite andb_false_r in Hw. cbn [app wf_items] in Hw. apply andb_true_iff in Hw. destruct Hw as [-> Hw].
       cbn [andb]. eapply IH; [exact E|reflexivity|exact Hw].
     + (* open *)
-      destruct (items_of r (S i) (Some KOpen) false) as [rest|] eqn:E; [|discriminate H]. injection H as <-.
-      pose proof (lead_eq after prev sp KOpen Hp) as Hl; cbn [starts_value_k] in Hl; rewrite Hl in Hw; clear Hl.
+      destruct (items_of r (S i) (Some (KOpen b)) false) as [rest|] eqn:E; [|discriminate H]. injection H as <-.
+      pose proof (lead_eq after prev sp (KOpen b) Hp) as Hl; cbn [starts_value_k] in Hl; rewrite Hl in Hw; clear Hl.
       destruct after, sp; cbn [andb app wf_items negb orb] in Hw |- *; try discriminate Hw;
         (eapply IH; [exact E|reflexivity|exact Hw]).
     + (* close *)
-      destruct (items_of r (S i) (Some KClose) false) as [rest|] eqn:E; [|discriminate H]. injection H as <-.
-      pose proof (lead_eq after prev sp KClose Hp) as Hl; cbn [starts_value_k] in Hl; rewrite Hl in Hw; clear Hl.
+      destruct (items_of r (S i) (Some (KClose b)) false) as [rest|] eqn:E; [|discriminate H]. injection H as <-.
+      pose proof (lead_eq after prev sp (KClose b) Hp) as Hl; cbn [starts_value_k] in Hl; rewrite Hl in Hw; clear Hl.
       rewrite andb_false_r in Hw. cbn [app wf_items] in Hw. apply andb_true_iff in Hw. destruct Hw as [-> Hw].
-      cbn [andb]. destruct depth as [|d]; [discriminate Hw|]. eapply IH; [exact E|reflexivity|exact Hw].
+      cbn [andb]. destruct depth as [|b' d]; [discriminate Hw|]. apply andb_true_iff in Hw. destruct Hw as [Hb Hw].
+      rewrite Hb. cbn [andb]. eapply IH; [exact E|reflexivity|exact Hw].
     + (* whitespace *)
       eapply IH; [exact H|exact Hp|exact Hw].
 Qed.
@@ -285,7 +288,8 @@ Proof.
     + apply andb_true_iff in H. destruct H as [-> H]. cbn [andb]. apply IH; auto.
     + apply andb_true_iff in H. destruct H as [-> H]. cbn [andb]. apply IH; auto.
     + apply andb_true_iff in H. destruct H as [-> H]. cbn [andb]. apply IH; auto.
-    + apply andb_true_iff in H. destruct H as [-> H]. cbn [andb]. destruct depth; [discriminate H|]. apply IH; auto.
+    + apply andb_true_iff in H. destruct H as [-> H]. cbn [andb]. destruct depth; [discriminate H|].
+      apply andb_true_iff in H. destruct H as [-> H]. cbn [andb]. apply IH; auto.
     + apply IH; auto.
 Qed.
 
@@ -317,8 +321,8 @@ Proof.
   destruct (climb (4 * length its0 + 8) INF None its0) as [[T0 r0]|] eqn:Hcl0; [|discriminate Hcl].
   cbn [option_map shift_res fst snd] in Hcl. injection Hcl as <- Hr0.
   destruct r0; [|discriminate Hr0].
-  pose proof (climb_wf _ _ _ _ _ _ Hcl0 0 eq_refl) as Hwf. cbn [is_some] in Hwf.
-  pose proof (items_tokens_wf mid 0 None false its0 false 0 Hits0 eq_refl Hwf) as Hloose.
+  pose proof (climb_wf _ _ _ _ _ _ Hcl0 [] eq_refl) as Hwf. cbn [is_some] in Hwf.
+  pose proof (items_tokens_wf mid 0 None false its0 false [] Hits0 eq_refl Hwf) as Hloose.
   assert (Hne : mid <> []).
   { intros E. rewrite E in Hits0. injection Hits0 as <-. discriminate Hwf. }
   exists T0. split; [|split; [|reflexivity]].
